@@ -4,6 +4,7 @@ import (
 	"fmt"
 	"go/ast"
 	"go/constant"
+	"go/token"
 	"go/types"
 	"sort"
 	"strings"
@@ -124,12 +125,33 @@ func (e *Enum) setIsIota() {
 
 // fetchConstComment retrieve the comment, not exposed in go/types
 func fetchConstComment(pa *packages.Package, obj *types.Const) string {
-	node := nodeAt(pa, obj.Pos())
-	spec := node.(*ast.ValueSpec)
+	spec := valueSpecAt(pa, obj.Pos())
 	if spec.Comment == nil {
 		return ""
 	}
 	return strings.TrimSpace(spec.Comment.Text())
+}
+
+// valueSpecAt returns the specification declaring the name at `pos`
+// (one specification may declare several names : const A, B T = 1, 2),
+// or panics if not found
+func valueSpecAt(pa *packages.Package, pos token.Pos) (out *ast.ValueSpec) {
+	declFile := pa.Fset.File(pos)
+	for _, file := range pa.Syntax {
+		if pa.Fset.File(file.Pos()) != declFile {
+			continue
+		}
+		ast.Inspect(file, func(n ast.Node) bool {
+			if spec, ok := n.(*ast.ValueSpec); ok && spec.Pos() <= pos && pos < spec.End() {
+				out = spec
+			}
+			return out == nil
+		})
+	}
+	if out == nil {
+		panic("value specification not found in Package.Syntax " + pa.String())
+	}
+	return out
 }
 
 // fetchPkgEnums walks through all the constants defined by the given package
